@@ -508,13 +508,22 @@ func (c *Ctx) runItem(it Item) *ItemResult {
 				{"max-1", func(m int) int { return max(m-1, 0) }},
 				{"max", func(m int) int { return m }},
 			}
+			used := false
 			for _, md := range modes {
-				c.fixLen = md.f
+				f := md.f
+				c.fixLen = func(m int) int { used = true; return f(m) }
 				e.deadline = time.Now().Add(budget)
 				it.Run(c)
+				if !used {
+					// the item generates no symbolic texts (its lengths come from decoded bytes): this run was the
+					// plain full exploration of the loop, there is nothing to vary
+					break
+				}
 			}
 			c.fixLen = nil
-			res.Imprecise = unionStr(res.Imprecise, []string{"reduced bound: the code loops on a text length (" + firstLine(first.Inconcl[0]) + "); decided for text lengths {0, 1, max/2, max-1, max} of each field (uniform), contents symbolic"})
+			if used {
+				res.Imprecise = unionStr(res.Imprecise, []string{"reduced bound: the code loops on a text length (" + firstLine(first.Inconcl[0]) + "); decided for text lengths {0, 1, max/2, max-1, max} of each field (uniform), contents symbolic"})
+			}
 			res.Paths += first.Paths
 		}
 	}()
